@@ -374,6 +374,38 @@ fn evict_rehash_witness() {
     vassert!([C20], hashes <= 2 + 1, "set_max_size evicting one entry computed more than two key hashes plus one per evicted entry");
 }
 
+/// Native only (replay): hashing work of clone() on caches whose table is exactly full
+/// (len == capacity: 3, 7, 14, 28 entries) and on partially filled ones.
+#[cfg(not(kani))]
+fn clone_hash_witness() {
+    static mut COUNT: usize = 0;
+    #[derive(Clone, Default)]
+    struct CntBuild;
+    impl BuildHasher for CntBuild {
+        type Hasher = std::collections::hash_map::DefaultHasher;
+        fn build_hasher(&self) -> Self::Hasher {
+            unsafe { COUNT += 1; }
+            std::collections::hash_map::DefaultHasher::new()
+        }
+    }
+    for &n in &[3usize, 7, 14, 28, 5, 20] {
+        let mut c: LruCache<u64, u64, CntBuild> = LruCache::with_hasher(usize::MAX, CntBuild);
+        let mut i = 0u64;
+        while (i as usize) < n {
+            c.insert(i, i).unwrap();
+            i += 1;
+        }
+        unsafe { COUNT = 0; }
+        let d = c.clone();
+        let hashes = unsafe { COUNT };
+        if hashes > 2 + n {
+            eprintln!("witness: clone of {} entries (capacity {}) computed {} hashes", n, c.capacity(), hashes);
+        }
+        vassert!([C20], hashes <= 2 + n, "clone hashed more than once per held entry (+2)");
+        drop(d);
+    }
+}
+
 /// Native only (replay): the churn bound at a scale where the real hashbrown
 /// produces tombstones - a sliding window of 20 consecutive keys under an
 /// identity hasher, explicit removals and eviction-driven churn; capacity must
@@ -470,9 +502,17 @@ pub fn h_clone_s(n: usize, cap: usize, tab: [u8; 8], op: u8, side: u8, nd: bool,
 pub fn h_clone_sk(n: usize, cap: usize, tab: [u8; 8], op: u8, side: u8, nd: bool, slack: usize, tfix: i8, kop: i8) {
     let (c, st, exp) = build_shaped_t(n, cap, tab, slack, nd, tfix);
     let f0 = fp(&c, n + 1);
+    let tables0 = tm::tables_allocated();
     let d = c.clone();
     let hashes = unsafe { HASHES };
     vassert!([C20], hashes <= 2 + n, "clone hashed more than once per held entry (+2)");
+    if ON_MODEL {
+        // trigger for the native witness below: a second table allocation inside clone() means the
+        // entries copied so far are hashed again (not visible in the count at this size)
+        vassert!([C20], tm::tables_allocated() <= tables0 + 1, "clone allocated more than one table (the entries copied so far are rehashed)");
+    }
+    #[cfg(not(kani))]
+    clone_hash_witness();
     vassert!([C14, C19], fp(&c, n + 1).same(&f0), "clone altered the source");
     vassert!([C14], d.len() == c.len() && d.current_size() == c.current_size() && d.max_size() == c.max_size(), "the clone's len / current_size / max_size differ from the source's");
     vassert!([C14, C13], d.capacity() >= c.capacity(), "the clone's capacity is below the source's");
@@ -655,7 +695,7 @@ harnesses! {
     clone_n3_c3_exactly_full [6] => h_clone_s(3, 3, tab_of(6), 0, 0, false, 0, -1); //@ q=C19,C01 t=C14 to=2400
     clone_n3_c3_exactly_full_t1 [6] => h_clone_s(3, 3, tab_of(6), 0, 0, false, 0, 1); //@ q=C14 to=900
     clone_n2_c7_spare [5] => h_clone_s(2, 7, tab_of(6), 0, 0, false, 64, 0); //@ q=C14,C13 to=900
-    clone_n7_c7_t3 [10] => h_clone_s(7, 7, tab_of(6), 0, 0, false, 64, 3); //@ q=C20 t=C14,C19 to=1500
+    clone_n7_c7_t3 [10] => h_clone_s(7, 7, tab_of(6), 0, 0, false, 64, 3); //@ q=C20 t=C14,C19 to=1500 cfg=model16
     clone_n0_small_limit [4] => h_clone_s(0, 0, tab_of(6), 0, 0, false, 5, -1); //@ q=C14 to=600
     clone_n0_c3_small_limit [4] => h_clone_s(0, 3, tab_of(6), 0, 0, false, 6, -1); //@ q=C14 to=600
     clone_n0 [4] => h_clone(0, 0, tab_of(6), 1, 0, false); //@ q=C14 to=600
